@@ -101,8 +101,8 @@ def gen_visit(cls: str):
             c.requires(f)
         w0 = z3.Const("w_sat", Obj)
         c.requires(S.conforms_def(ct, cls, Sx, w0), "satisfiable")       # Skolem witness of `satisfiable(S)`
-        c.requires(S.float_range(w0), "float-repr")
-        c.requires(S.float_range(Sx), "float-repr-schema")
+        c.requires(S.deep_range(w0), "float-repr")
+        c.requires(S.deep_range(Sx), "float-repr-schema")
         c.extra_inputs = {"w_sat": w0}
         if cls == "StrSchema":
             c.requires(z3.Implies(S.declared(Sx, "pattern"), regex_gen_ok(M.sval(S.prop(Sx, "pattern")))),
